@@ -18,7 +18,7 @@ NOT_APPLICABLE = {}
 
 # entries written by the property builders live in design_notes/CXX.md (python block under "MANIFEST entry");
 # a property is claimed only once the maintainer has reviewed it and listed it in ACCEPTED
-ACCEPTED = ["C01", "C03", "C09", "C04", "C05", "C06", "C07", "C10", "C11", "C12", "C13", "C14", "C15", "C16", "C17", "C18", "C19", "C20"]
+ACCEPTED = ["C01", "C02", "C03", "C09", "C04", "C05", "C06", "C07", "C10", "C11", "C12", "C13", "C14", "C15", "C16", "C17", "C18", "C19", "C20"]
 
 
 def _load_notes():
